@@ -38,6 +38,12 @@ conditions that are visible in the shape of the pool allocator:
  R8  the extent of a ranged dimension is ``upper - lower + 1``: every ``Sum`` built
      from the bounds of one dimension in the stack / pool transformations is, as
      a linear normal form over the constructor tree, exactly that.
+ R9  column-major linearisation (raw-stack and direct-index variants): where an
+     offset is accumulated over the dimensions as ``offset = Sum((offset,
+     Product((index, stride))))``, the stride is defined before the loop, used
+     before it is updated and updated unconditionally as ``Product((stride,
+     extent))`` -- the running product of the extents already passed; any other
+     recurrence maps distinct elements of a temporary of rank >= 4 to one slot.
 Not decided: behavioural equivalence of hoisted / pool-allocated code, the size
 arithmetic of each array (dimension products, ``C_SIZEOF``), and the other
 stack transformations (raw stack, Fortran-pointer and direct-index variants).
@@ -352,6 +358,7 @@ def run_r5(ctx):
                           f'`{ast.unparse(bad[0])}` re-orders the hoisted variables on the caller side')
     ctx.floor('R5', 'caller-side argument constructions', n, 4)
     run_r67(ctx)
+    run_r9(ctx)
 
 
 def run_r67(ctx):
@@ -438,7 +445,81 @@ def run_r67(ctx):
                               f'beginning of the stack (a conditional expression binds weaker than `+`)', instance=inst)
 
 
+
+def run_r9(ctx):
+    """column-major linearisation: inside a loop over the dimensions, ``offset = Sum((offset, Product((d_offset, S))))`` uses a
+    stride S that is the *cumulative* product of the extents of the dimensions already passed"""
+    m = ctx.model
+    ctx.rule('R9', 'loki/transformations/temporaries: a linearised offset accumulated over dimensions multiplies each index by a stride that is '
+                   'initialised before the loop, used before it is updated, and updated as Product((stride, extent)) in every iteration')
+    n = 0
+
+    def self_ref_call(a, fname):
+        """`V = fname((... V ...))` -> (V, other elements) else None"""
+        if isinstance(a, ast.Assign) and len(a.targets) == 1 and isinstance(a.targets[0], ast.Name) and isinstance(a.value, ast.Call) \
+                and X.call_name_of(a.value) == fname and a.value.args and isinstance(a.value.args[0], (ast.Tuple, ast.List)):
+            v = a.targets[0].id
+            elts = a.value.args[0].elts
+            if any(isinstance(e, ast.Name) and e.id == v for e in elts):
+                return v, [e for e in elts if not (isinstance(e, ast.Name) and e.id == v)]
+        return None
+    for mod in m.all_repo_modules(packages=('loki/transformations/temporaries',)):
+        for fn_ in [x for x in ast.walk(mod.tree) if isinstance(x, (ast.FunctionDef, ast.AsyncFunctionDef))]:
+            for loop in [l for l in ast.walk(fn_) if isinstance(l, ast.For)]:
+                for st in loop.body:
+                    r = self_ref_call(st, 'Sum')
+                    if not r:
+                        continue
+                    off, rest = r
+                    prods = [e for e in rest if isinstance(e, ast.Call) and X.call_name_of(e) == 'Product' and e.args
+                             and isinstance(e.args[0], (ast.Tuple, ast.List)) and len(e.args[0].elts) == 2
+                             and all(isinstance(z, ast.Name) for z in e.args[0].elts)]
+                    if len(rest) != 1 or len(prods) != 1:
+                        continue
+                    factors = [z.id for z in prods[0].args[0].elts]
+                    # the stride is the factor that is (re)assigned in the loop body at top level and defined before the loop
+                    top_assigned = {t.id: a for a in loop.body if isinstance(a, ast.Assign) for t in a.targets if isinstance(t, ast.Name)}
+                    pre = {t.id for a in ast.walk(fn_) if isinstance(a, ast.Assign) and a.lineno < loop.lineno for t in a.targets if isinstance(t, ast.Name)}
+                    cands = [f_ for f_ in factors if f_ in pre and f_ != off]
+                    if len(cands) != 1:
+                        continue
+                    S = cands[0]
+                    n += 1
+                    where = f'{mod.relpath}:{st.lineno}'
+                    inst = f'{fn_.name}:{off}+={factors[0]}*{factors[1]}'
+                    upd = [a for a in ast.walk(loop) if isinstance(a, (ast.Assign, ast.AugAssign)) and any(
+                        isinstance(t, ast.Name) and t.id == S for t in (a.targets if isinstance(a, ast.Assign) else [a.target]))]
+                    if not upd:
+                        ctx.violation('R9', f'{fn_.name}:stride-never-updated', where,
+                                      f'`{ast.unparse(st)}`: the stride `{S}` is not updated in the loop over the dimensions: every index is scaled '
+                                      f'alike, distinct elements of the temporary share one slot', instance=inst)
+                        continue
+                    bad = None
+                    for a in upd:
+                        r2 = self_ref_call(a, 'Product')
+                        if a not in loop.body:
+                            bad = (a, 'is updated only conditionally')
+                        elif r2 is None or r2[0] != S or len(r2[1]) != 1:
+                            bad = (a, 'is not the running product of the extents (it must be Product((stride, extent)))')
+                        elif a.lineno < st.lineno:
+                            bad = (a, 'is updated before the offset of the current dimension has been added')
+                    if bad:
+                        ctx.violation('R9', f'{fn_.name}:stride-not-cumulative', f'{mod.relpath}:{bad[0].lineno}',
+                                      f'`{ast.unparse(bad[0])}`: the stride `{S}` that scales the index of each dimension in `{ast.unparse(st)[:70]}` '
+                                      f'{bad[1]}: for a temporary with three or more non-horizontal dimensions distinct elements are mapped to '
+                                      f'the same slot of the stack', instance=inst)
+                    else:
+                        ctx.judge('R9', inst, facts={'offset': off, 'stride': S, 'update': ast.unparse(upd[0])})
+    ctx.floor('R9', 'linearised offsets accumulated over dimensions', n, 1)
+
+
 MUTANTS = [
+    Mutant('stride-is-last-extent', 'loki/transformations/temporaries/raw_stack_allocator.py', "                    s_offset = Product((s_offset, s_extent))",
+           "                    s_offset = s_extent", expect=('R9', 'stride-not-cumulative')),
+    Mutant('stride-updated-before-use', 'loki/transformations/temporaries/raw_stack_allocator.py',
+           "                    offset = Sum((offset, Product((d_offset, s_offset))))\n\n                    s_offset = Product((s_offset, s_extent))",
+           "                    s_offset = Product((s_offset, s_extent))\n\n                    offset = Sum((offset, Product((d_offset, s_offset))))",
+           expect=('R9', 'stride-not-cumulative')),
     Mutant('extent-without-plus-one', FILE, "                dims += (Sum((d.upper, Product((-1, d.lower)), 1)),)", "                dims += (Sum((d.upper, Product((-1, d.lower)))),)",
            expect=('R8', 'extent')),
     Mutant('section-bound-by-truthiness', 'loki/transformations/temporaries/stack_allocator.py',
